@@ -121,6 +121,48 @@ def check_case(case):
                         break
                 if len(res.violations) > 40:
                     break
+    # the same contract holds on every path also while a variable is fixed (the processor has served decodes and an
+    # enumeration by now) and after it is freed again
+    if enc == 'COMPLETE' and not res.violations and case.get('vseed', 0) % 2 == 0:
+        sel = [i for i, m in enumerate(meta) if m['kind'] == 'sel']
+        if sel:
+            i_fix = sel[case.get('vseed', 0) // 2 % len(sel)]
+            val = (case.get('vseed', 0) // 7) % meta[i_fix]['n_opts']
+            all_vars = list(gp.all_des_vars)
+            try:
+                gp.fix_des_var(all_vars[i_fix], val)
+                meta_f = [m for i, m in enumerate(meta) if i != i_fix]
+                out = gp.get_all_discrete_x()
+                if out is not None:
+                    X, A = np.asarray(out[0]), np.asarray(out[1])
+                    res.classes.append('with_fixed_variable')
+                    for r in range(min(X.shape[0], 60)):
+                        x = [float(X[r, i]) if not meta_f[i]['discrete'] else int(X[r, i]) for i in range(len(meta_f))]
+                        listed = [bool(a) for a in A[r]]
+                        for create in (True, False):
+                            rec = decode_one(obs, gp, x, create=create)
+                            if rec['exc'] is not None or \
+                                    proc.discrete_part(meta_f, rec['x_corr']) != proc.discrete_part(meta_f, x):
+                                continue   # C15
+                            if rec['active'] != listed:
+                                diff = sorted({meta_f[i]['kind'] for i in range(len(meta_f)) if listed[i] != rec['active'][i]})
+                                res.add(viol('enumeration_activeness_differs_from_decode',
+                                             f'with {meta[i_fix]["name"]} fixed to {val}: row {x}: listed {listed}, '
+                                             f'decode(create={create}) {rec["active"]}',
+                                             data=dict(d0, create=create, kinds=[m['kind'] for m in meta_f], diff_kinds=diff,
+                                                       with_fixed=True)))
+                                break
+                        if res.violations:
+                            break
+            except Exception as e:  # noqa
+                if exc_sig(e).endswith('@harness'):
+                    raise
+                res.classes.append('fix_step_exception_not_judged_here')   # C15
+            finally:
+                try:
+                    gp.free_des_var(all_vars[i_fix])
+                except Exception:  # noqa
+                    pass
     res.nontrivial = both
     res.sample = {'spec': spec, 'enc': enc, 'n_vectors': len(obs.records), 'n_corrected_designs': len(by_corr),
                   'conditional_flags': [(m['name'], m['cond']) for m in meta]}
